@@ -11,7 +11,7 @@ var propC02 = &simProp{
 	ID: "C02",
 	Profile: sim.Profile{
 		Name: "C02", Voters: [2]int{2, 5}, NonVoters: [2]int{0, 2}, Phases: [2]int{2, 7},
-		Patterns: []string{"P3", "P3", "P4", "P4b", "P4b", "P4b", "P5", "P5", "P6", "P11", "free", "free", "P1", "P2", "stopstart", "P12"},
+		Patterns: []string{"P3", "P3", "P4", "P4b", "P4b", "P4b", "P5", "P5", "P6", "P11", "P23", "P23", "free", "free", "P1", "P2", "stopstart", "P12"},
 		Writes:   true, Crashes: true, Stops: true, EpilogueET: 6, Prologue: true,
 	},
 	Owns: []string{"C02"},
